@@ -3,6 +3,7 @@ package c11
 import (
 	"fmt"
 	"os"
+	"strings"
 	"testing"
 
 	"github.com/zerx-lab/wordZero/pkg/document"
@@ -14,7 +15,7 @@ import (
 
 func TestMain(m *testing.M) {
 	document.SetGlobalLevel(document.LogLevelSilent)
-	kit.TestMain(m, 1400, 15000)
+	kit.TestMain(m, 900, 13000)
 }
 
 var (
@@ -23,7 +24,8 @@ var (
 	aligns    = []string{"", "left", "center", "right", "both"}
 	colors    = []string{"", "FF0000", "8e8e8e", "000000", "1F4E79", "00b050"}
 	fonts     = []string{"", "Arial", "宋体", "Times New Roman", "Courier New", "微软雅黑"}
-	hilites   = []string{"", "", "yellow", "green"}
+	hilites   = []string{"", "", "yellow", "green", "cyan", "darkYellow"}
+	bigSizes  = []int{73, 96, 100, 127, 128, 255, 256, 500, 1638} // w:sz holds half points up to 3276
 	pageSizes = []string{"A4", "Letter", "Legal", "A3", "A5"}
 )
 
@@ -41,6 +43,9 @@ func genFmt(t *rapid.T) *Fmt {
 	}
 	if rapid.Bool().Draw(t, "szset") {
 		f.Size = rapid.IntRange(1, 72).Draw(t, "sz")
+		if rapid.IntRange(0, 19).Draw(t, "szbig") == 19 {
+			f.Size = rapid.SampledFrom(bigSizes).Draw(t, "szb")
+		}
 	}
 	switch rapid.IntRange(0, 3).Draw(t, "fontmode") {
 	case 0: // preferred field
@@ -54,7 +59,26 @@ func genFmt(t *rapid.T) *Fmt {
 	return f
 }
 
+// strings the library and the format use themselves: part names, relationship ids, kind names, the field instruction, the
+// wording the library puts around a page number, element names
+var ownWords = []string{"header1.xml", "footer1.xml", "headerfirst.xml", "rId1", "rId2", "rId10", "default", "first", "even", "PAGE", " PAGE ", " 第 ", " 页", "第 1 页", "1", "0", "w:hdr", "w:t", "preserve"}
+
+const clsOwn = "library-own-strings"
+
 func genText(t *rapid.T) (string, string) {
+	switch rapid.IntRange(0, 59).Draw(t, "textextra") {
+	case 57, 58:
+		n := rapid.IntRange(1, 3).Draw(t, "ownn")
+		x := ""
+		for i := 0; i < n; i++ {
+			x += rapid.SampledFrom(ownWords).Draw(t, "own")
+		}
+		return x, clsOwn
+	case 59: // long texts, also of characters that take several bytes
+		if s, cls := gen.Text(t, "text", gen.ClsLong); gen.XMLExpressible(s) {
+			return s, cls
+		}
+	}
 	s, cls := gen.Text(t, "text", gen.Expressible...)
 	if !gen.XMLExpressible(s) {
 		return "x", gen.ClsASCII
@@ -65,7 +89,7 @@ func genText(t *rapid.T) (string, string) {
 func genOp(t *rapid.T, focus []string) Op {
 	// weights: definitions dominate; the rest interleaves
 	k := rapid.SampledFrom([]string{"def", "def", "def", "def", "def", "def", "def", "def", "def", "def", "def",
-		"firstpage", "pagesize", "orient", "margins", "hfdist", "image", "list", "para", "reopen", "reopen", "reopen", "reopen", "render", "render", "render2", "render2", "render2"}).Draw(t, "k")
+		"firstpage", "pagesize", "orient", "margins", "hfdist", "image", "list", "para", "reopen", "reopen", "reopen", "reopen", "render", "render", "render2", "render2", "render2", "twin"}).Draw(t, "k")
 	return genOpOf(t, k, focus)
 }
 
@@ -125,6 +149,8 @@ func genOpOf(t *rapid.T, k string, focus []string) Op {
 		return Op{K: k, S: rapid.SampledFrom([]string{"bullet", "number"}).Draw(t, "lt")}
 	case "render":
 		return Op{K: k, B: rapid.Bool().Draw(t, "cont")}
+	case "twin":
+		return Op{K: k, XA: genExt(t)}
 	case "render2":
 		return Op{K: k, Ord: rapid.SampledFrom([]string{"rrab", "rrab", "rarb", "alt"}).Draw(t, "ord"), Cont: rapid.IntRange(0, 2).Draw(t, "cont2"),
 			XA: genExt(t), XB: genExt(t)}
@@ -143,6 +169,8 @@ var (
 	folders = []string{"headers", "hf", "parts/hf"}
 )
 
+var partBodies = []string{"", "", "", "", "split", "paras", "fldsimple", "fldcomplex"}
+
 func genStart(t *rapid.T) *Start {
 	idx := rapid.Permutation([]int{0, 1, 2, 3, 4, 5}).Draw(t, "slots")
 	n := rapid.SampledFrom([]int{1, 2, 3, 4, 2, 3, 5, 6, 0}).Draw(t, "nslots")
@@ -155,10 +183,57 @@ func genStart(t *rapid.T) *Start {
 	}
 	rot := rapid.IntRange(1, 2).Draw(t, "rot")
 	st := &Start{}
+	// what the package has besides the header/footer parts: no styles part at all (ids count from rId1), further
+	// relationships in front (ids of the header/footer relationships past rId9/rId10, seldom past rId64)
+	st.NoStyles = rapid.IntRange(0, 3).Draw(t, "nostyles") == 3
+	st.Pad = rapid.SampledFrom([]int{0, 0, 0, 0, 0, 1, 3, 6, 7, 8, 9, 61, 63}).Draw(t, "pad")
+
+	// the sections in front of the last one (one start in three): each references parts of its own (kinds drawn
+	// independently of the last section's) and sometimes a part the last section references too
+	type proto struct {
+		k     key
+		early int // 0: a slot of the last section, n: a part of earlier section n
+	}
+	var protos []proto
+	for _, i := range idx[:n] {
+		protos = append(protos, proto{k: allKeys[i]})
+	}
+	nEarly := 0
+	if rapid.IntRange(0, 2).Draw(t, "multisection") == 2 {
+		nEarly = rapid.SampledFrom([]int{1, 1, 1, 1, 2, 2, 3, 10}).Draw(t, "nearly")
+	}
+	var early []proto
+	for e := 1; e <= nEarly; e++ {
+		own := rapid.SampledFrom([]int{1, 1, 2, 2, 3, 0}).Draw(t, "nown")
+		if nEarly >= 10 {
+			own = 1 + e%2 // ten sections with a header each (and a footer in every second): header10.xml, footer5.xml ...
+		}
+		eidx := rapid.Permutation([]int{0, 1, 2, 3, 4, 5}).Draw(t, "eslots")
+		if nEarly >= 10 && allKeys[eidx[0]].Footer { // a header first
+			for x, v := range eidx {
+				if !allKeys[v].Footer {
+					eidx[0], eidx[x] = eidx[x], eidx[0]
+					break
+				}
+			}
+		}
+		for _, i := range eidx[:own] {
+			early = append(early, proto{k: allKeys[i], early: e})
+		}
+	}
+	if nEarly > 0 && rapid.Bool().Draw(t, "earlyfirst") { // Word numbers the parts in creation order: the first section's come first
+		protos = append(early, protos...)
+	} else {
+		protos = append(protos, early...)
+	}
 	nh, nf := 0, 0
-	for j, i := range idx[:n] {
-		k := allKeys[i]
+	for j, p := range protos {
+		k := p.k
 		s := StartSlot{Footer: k.Footer, Kind: k.Kind, Text: "other producer's " + k.String()}
+		if p.early > 0 {
+			s.Text = fmt.Sprintf("section %d %s", p.early, k.String())
+			s.Unref = true
+		}
 		num := 0
 		if k.Footer {
 			nf++
@@ -167,10 +242,17 @@ func genStart(t *rapid.T) *Start {
 			nh++
 			num = nh
 		}
-		switch naming {
-		case "lib":
+		what := "header"
+		if k.Footer {
+			what = "footer"
+		}
+		switch {
+		case p.early > 0 && naming != "word" && naming != "sub":
+			// the library's names and the free names are too few: parts of earlier sections are numbered (from 2: header1.xml is a library name)
+			s.Part = fmt.Sprintf("%s%d.xml", what, num+1)
+		case naming == "lib":
 			s.Part = libPart(k)
-		case "swap": // the library's names, attached to other kinds
+		case naming == "swap": // the library's names, attached to other kinds
 			ki := 0
 			for x, kd := range kinds {
 				if kd == k.Kind {
@@ -178,18 +260,24 @@ func genStart(t *rapid.T) *Start {
 				}
 			}
 			s.Part = libPart(key{k.Footer, kinds[(ki+rot)%3]})
-		case "free":
+		case naming == "free":
+			names := freeHdr
 			if k.Footer {
-				s.Part = freeFtr[num-1]
-			} else {
-				s.Part = freeHdr[num-1]
+				names = freeFtr
+			}
+			s.Part = fmt.Sprintf("%s%d.xml", what, num+1)
+			for _, nm := range names {
+				used := false
+				for _, o := range st.Slots {
+					used = used || o.Part == nm
+				}
+				if !used {
+					s.Part = nm
+					break
+				}
 			}
 		default: // "word", "sub": numbered in creation order
-			if k.Footer {
-				s.Part = fmt.Sprintf("%sfooter%d.xml", folder, num)
-			} else {
-				s.Part = fmt.Sprintf("%sheader%d.xml", folder, num)
-			}
+			s.Part = fmt.Sprintf("%s%s%d.xml", folder, what, num)
 		}
 		switch tgtMode {
 		case "mixed":
@@ -199,16 +287,39 @@ func genStart(t *rapid.T) *Start {
 		}
 		switch idMode {
 		case "gap":
-			s.ID = fmt.Sprintf("rId%d", 4+3*j+rapid.IntRange(0, 2).Draw(t, "idgap"))
+			s.ID = fmt.Sprintf("rId%d", st.firstID()+2+3*j+rapid.IntRange(0, 2).Draw(t, "idgap"))
 		case "named":
 			s.ID = fmt.Sprintf("%s%d", rapid.SampledFrom([]string{"hf", "R", "rIdHdr", "id_"}).Draw(t, "idname"), j+1)
 		}
 		s.Pic = rapid.IntRange(0, 4).Draw(t, "pic") == 4
-		s.Unref = rapid.IntRange(0, 9).Draw(t, "unref") == 9
+		if p.early == 0 {
+			s.Unref = rapid.IntRange(0, 9).Draw(t, "unref") == 9
+		}
+		s.Body = rapid.SampledFrom(partBodies).Draw(t, "body")
 		st.Slots = append(st.Slots, s)
 	}
-	if n > 1 && rapid.IntRange(0, 2).Draw(t, "permrefs") > 0 {
-		base := make([]int, n)
+	for e := 1; e <= nEarly; e++ {
+		es := EarlySect{Text: rapid.Bool().Draw(t, "secttext")}
+		have := map[key]bool{}
+		for i, p := range protos {
+			if p.early == e {
+				es.Refs = append(es.Refs, i)
+				have[p.k] = true
+			}
+		}
+		// a part shared with the last section
+		if rapid.IntRange(0, 3).Draw(t, "share") == 3 {
+			for i, p := range protos {
+				if p.early == 0 && !have[p.k] {
+					es.Refs = append(es.Refs, i)
+					break
+				}
+			}
+		}
+		st.Earlier = append(st.Earlier, es)
+	}
+	if len(protos) > 1 && rapid.IntRange(0, 2).Draw(t, "permrefs") > 0 {
+		base := make([]int, len(protos))
 		for i := range base {
 			base[i] = i
 		}
@@ -220,13 +331,15 @@ func genStart(t *rapid.T) *Start {
 			}
 		}
 	}
-	switch rapid.IntRange(0, 3).Draw(t, "stylesrel") {
-	case 1:
-		st.StylesLast = true
-	case 2:
-		st.StylesID, st.StylesLast = "rId90", true
-	case 3:
-		st.StylesID = "styles"
+	if !st.NoStyles {
+		switch rapid.IntRange(0, 3).Draw(t, "stylesrel") {
+		case 1:
+			st.StylesLast = true
+		case 2:
+			st.StylesID, st.StylesLast = "rId190", true
+		case 3:
+			st.StylesID = "styles"
+		}
 	}
 	st.File = rapid.IntRange(0, 5).Draw(t, "viafile") == 5
 	return st
@@ -238,6 +351,9 @@ func genCase(t *rapid.T) Case {
 	var c Case
 	if rapid.IntRange(0, 2).Draw(t, "foreign") == 0 {
 		c.Start = genStart(t)
+		if err := c.Start.valid(); err != nil {
+			t.Fatalf("harness: the generator drew a malformed start layout: %v", err)
+		}
 		// a history on an opened document redefines kinds the document brought along and defines kinds it lacks
 		var have []string
 		for _, s := range c.Start.Slots {
@@ -248,6 +364,22 @@ func genCase(t *rapid.T) Case {
 		if len(have) > 0 {
 			focus[0] = rapid.SampledFrom(have).Draw(t, "focusexisting")
 		}
+	}
+	// one history in 40: one slot is defined again and again (11-22 times), with a few other steps in between
+	if rapid.IntRange(0, 39).Draw(t, "burst") == 39 {
+		n = rapid.IntRange(12, 22).Draw(t, "nburst")
+		footer := rapid.Bool().Draw(t, "burstfooter")
+		for i := 0; i < n; i++ {
+			if rapid.IntRange(0, 7).Draw(t, "burstother") == 7 {
+				c.Ops = append(c.Ops, genOpOf(t, rapid.SampledFrom([]string{"reopen", "render", "image", "para", "firstpage"}).Draw(t, "bk"), focus))
+				continue
+			}
+			o := genOpOf(t, "def", focus)
+			o.Kind = focus[0]
+			o.K = map[bool]string{false: "hdr", true: "ftr"}[footer] + strings.TrimPrefix(strings.TrimPrefix(o.K, "hdr"), "ftr")
+			c.Ops = append(c.Ops, o)
+		}
+		return c
 	}
 	for i := 0; i < n; i++ {
 		c.Ops = append(c.Ops, genOp(t, focus))
@@ -283,19 +415,25 @@ func fixedCases() []Case {
 func TestC11(t *testing.T) {
 	kit.Main(t, kit.Spec[Case]{
 		ID: "C11", Level: "exploration",
-		Rule: "history of 1-14 (thorough 1-24) calls: the six header/footer definition entry points (AddHeader, AddFooter, Add{Header,Footer}WithPageNumber, AddFormatted{Header,Footer}) x {default, first, even} with XML-expressible texts (ascii, unicode, XML metacharacters, edge/only white space, empty), formats (bold, italic, underline, strike, size, colour, font via FontFamily / FontName alias / both, highlight, nil format, nil config) and alignments, the kind drawn mostly from a 2-element focus set so that slots are redefined; interleaved with SetDifferentFirstPage, page-setting calls, images, list items, paragraphs, save->OpenFromMemory (continue on the reopened document) and a no-data LoadTemplateFromDocument+RenderTemplateToDocument (judged; continue on the result in half of the cases), and a render-twice step: one LoadTemplateFromDocument, two RenderTemplateToDocument calls, each rendered document then receives 1-3 further calls of its own (definitions over all kinds, image, list, paragraph, page settings; renders and extensions ordered A B xA xB / A xA B xB / alternating) and only then both are judged, each against the template's model plus its own calls; the history continues on the template or on either rendered document. Every document a render step leaves behind (template or rendered) is judged once more, against the model it had, at the end of the history. One history in three starts, instead of document.New(), from a document of another producer (written by the harness with string templates, opened with OpenFromMemory or Open) that defines any subset of the six slots (0-6), in parts named like Word names them (header1..n.xml / footer1..n.xml in creation order, the number saying nothing about the kind), like the library does, with the library's names attached to other kinds, with free names, or in a sub-folder of word/ (word/headers/header1.xml, word/parts/hf/...); relationship targets spelt relative (header1.xml), with ./, as absolute part names (/word/header1.xml) or through the parent folder (../word/header1.xml), uniformly or mixed; relationship ids contiguous, with gaps or not of the rIdN form, the styles relationship first/last and rId1 or not; the references of w:sectPr in any order; parts with a relationship part and a picture of their own; parts that have a relationship but no reference (such a kind is not defined). On such a document the focus set holds a kind the document defines, so that the history both redefines existing kinds and defines missing ones through all six entry points. Reference model: slot (header|footer x kind) -> most recent definition (call, or the opened document's). The package is saved and judged with an independent zip/XML reader after every definition, open, reopen, render and at the end. non-trivial = >=2 definition calls and (some slot defined more than once, or a definition carried over a reopen/render); distinct = distinct sequence of (start layout, entry point, kind, page-number/format/empty flags, other op kinds)",
+		Rule: "history of 1-14 (thorough 1-24) calls: the six header/footer definition entry points (AddHeader, AddFooter, Add{Header,Footer}WithPageNumber, AddFormatted{Header,Footer}) x {default, first, even} with XML-expressible texts (ascii, unicode, XML metacharacters, edge/only white space, empty), formats (bold, italic, underline, strike, size, colour, font via FontFamily / FontName alias / both, highlight, nil format, nil config) and alignments, the kind drawn mostly from a 2-element focus set so that slots are redefined; interleaved with SetDifferentFirstPage, page-setting calls, images, list items, paragraphs, save->OpenFromMemory (continue on the reopened document) and a no-data LoadTemplateFromDocument+RenderTemplateToDocument (judged; continue on the result in half of the cases), and a render-twice step: one LoadTemplateFromDocument, two RenderTemplateToDocument calls, each rendered document then receives 1-3 further calls of its own (definitions over all kinds, image, list, paragraph, page settings; renders and extensions ordered A B xA xB / A xA B xB / alternating) and only then both are judged, each against the template's model plus its own calls; the history continues on the template or on either rendered document. Every document a render step leaves behind (template or rendered) is judged once more, against the model it had, at the end of the history. One history in three starts, instead of document.New(), from a document of another producer (written by the harness with string templates, opened with OpenFromMemory or Open) that defines any subset of the six slots (0-6), in parts named like Word names them (header1..n.xml / footer1..n.xml in creation order, the number saying nothing about the kind), like the library does, with the library's names attached to other kinds, with free names, or in a sub-folder of word/ (word/headers/header1.xml, word/parts/hf/...); relationship targets spelt relative (header1.xml), with ./, as absolute part names (/word/header1.xml) or through the parent folder (../word/header1.xml), uniformly or mixed; relationship ids contiguous, with gaps or not of the rIdN form, the styles relationship first/last and rId1 or not; the references of w:sectPr in any order; parts with a relationship part and a picture of their own; parts that have a relationship but no reference (such a kind is not defined). On such a document the focus set holds a kind the document defines, so that the history both redefines existing kinds and defines missing ones through all six entry points. Such a package further varies: no styles part and no styles relationship at all (1 in 4; the relationship ids then count from rId1, so that a header/footer relationship is rId1); 0-9, seldom 61-63 further relationships (external hyperlinks) in front of the header/footer ones (ids past rId9/rId10, past rId64); more than one section (1 in 3: 1-3, seldom 10 sections in front of the last one, each with a w:sectPr inside the w:pPr of its last paragraph that references 0-3 header/footer parts of its own - up to header13.xml - and sometimes a part the last section references too; the model follows the body-level w:sectPr, a kind that only an earlier section references is left open until a call defines it); the content of a part (text in one run, split over two runs, over two paragraphs, followed by a PAGE field as w:fldSimple or as begin/instrText/separate/result/end - such a kind counts as defined with a page number). Texts: 1 in 30 is built from strings the library and the format use themselves (header1.xml, rId1, default, PAGE, the wording around the page number ...), 1 in 60 is long (200-2000 characters, also of multi-byte characters); 1 formatted size in 20 lies above 72 pt (73 ... 1638). One history in 40 defines one slot 11-22 times in a row (with reopen/render/image steps in between). A twin step makes a second document of the process the way the first was made (document.New(), or the same package opened once more), gives it 1-3 calls of its own and judges it against its own model; the first document is judged at its next definition and at the end, the twin again at the end. Reference model: slot (header|footer x kind) -> most recent definition (call, or the opened document's). The package is saved and judged with an independent zip/XML reader after every definition, open, reopen, render and at the end. non-trivial = >=2 definition calls and (some slot defined more than once, or a definition carried over a reopen/render); distinct = distinct sequence of (start layout, entry point, kind, page-number/format/empty flags, other op kinds)",
 		Gen:  genCase, Run: run, Findings: findings, Fixed: fixedCases,
 		MustSee: map[string]float64{"repeat-kind": 0.4, "reopen": 0.3, "render": 0.15, "render-twice": 0.1, "render-twice:both-add-a-part,different": 0.03, "render-twice:both-define-a-new-kind": 0.02, "redefine-after-reopen-or-render": 0.1, "page-number": 0.3, "formatted": 0.3,
 			"all-three-kinds": 0.1, "definition-carried-over-reopen-or-render": 0.3, "foreign-start": 0.2, "foreign-start:word-part-names": 0.1,
 			"foreign-start:redefine-existing-kind": 0.08, "foreign-start:define-missing-kind": 0.1, "foreign-start:redefine-existing-kind:target-abs": 0.02, "foreign-start:redefine-existing-kind:target-dot": 0.01,
 			"foreign-start:redefine-existing-kind:target-up": 0.01, "foreign-start:redefine-existing-kind:part-in-subfolder": 0.015, "foreign-start:redefine-existing-kind:part-with-own-rels": 0.02,
-			"foreign-start:references-permuted": 0.05, "foreign-start:unreferenced-part": 0.03, "foreign-start:ids-not-contiguous": 0.05, "foreign-start:opened-from-file": 0.02, "text:xmlmeta": 0.2, "text:edgews": 0.2, "text:unicode": 0.2},
+			"foreign-start:references-permuted": 0.05, "foreign-start:unreferenced-part": 0.03, "foreign-start:ids-not-contiguous": 0.05, "foreign-start:opened-from-file": 0.02, "text:xmlmeta": 0.2, "text:edgews": 0.2, "text:unicode": 0.2,
+			"foreign-start:multi-section": 0.05, "foreign-start:multi-section:definition-call": 0.04, "foreign-start:multi-section:earlier-section-shares-a-part-with-the-last": 0.01, "foreign-start:multi-section:ten-or-more-sections": 0.003,
+			"foreign-start:no-styles-part": 0.04, "foreign-start:no-styles-part:definition-call": 0.03, "foreign-start:header-footer-relationship-is-rId1": 0.01, "foreign-start:header-footer-id-past-rId9": 0.05,
+			"foreign-start:more-than-64-relationships": 0.01, "foreign-start:kind-defined-with-page-field": 0.05, "foreign-start:redefine-existing-kind:part-with-page-field": 0.02,
+			"twin-document": 0.05, "twin-document:both-have-definitions": 0.03, "one-kind-defined-more-than-10-times": 0.008, "text:" + clsOwn: 0.05, "text:long": 0.02},
 		Assumptions: []string{
 			"texts are drawn from the XML-expressible classes without template syntax (identity of text is compared); colours are 6-digit hex as documented; sizes 1-72 pt",
 			"the wording around the page number is not documented: with showPageNum the visible text must contain the caller's text contiguously and a PAGE field must be present",
 			"a formatted call without alignment may leave w:jc absent or left/start",
-			"documents of another producer are minimal valid packages (one section, main part word/document.xml, header/footer parts below word/, plain ASCII header texts, unique relationship ids); every spelling of a relationship target the generator uses names the same part by the OPC resolution rules (relative to the folder of the source part, absolute when it starts with /), and the saved package is judged with the same rules",
+			"documents of another producer are minimal valid packages (main part word/document.xml, header/footer parts below word/, plain ASCII header texts, unique relationship ids, with or without a styles part, one or several sections); every spelling of a relationship target the generator uses names the same part by the OPC resolution rules (relative to the folder of the source part, absolute when it starts with /), and the saved package is judged with the same rules",
 			"a header/footer part of an opened document that has a relationship but no reference in w:sectPr does not define its kind; pictures and relationship parts of header/footer parts are not part of the statement and are not compared",
+			"in a document with several sections the section settings of the document are those of the body-level w:sectPr (the last section; the library documents the page-setting API the same way); what the document-level calls do to earlier sections is not stated: there only 'at most one reference per kind' and resolvability are judged, and a kind that only an earlier section references (the last section would inherit it by the format's rules) may or may not be referenced until a call defines it",
+			"two documents alive in one process are independent of each other (twin step): each is judged against its own calls only",
 			"SetDifferentFirstPage is exercised as an interleaved call; w:titlePg itself is not part of the property statement and is only counted (counts observed:titlePg-*)",
 		},
 	})
